@@ -6,6 +6,7 @@ ProfileCollider(MeshToCollider), ProfileCollider(JoinedCollider) over the 2-D ou
 vacuous for them: they have no triangles to scan) and ProfileSolid(ColliderSolid), ProfileSolid(BitmapToSolid) (clause
 "contains").  Stage "prims": see c07_prims."""
 import solids
+from vlib import Infra
 
 
 def run(ctx):
@@ -27,6 +28,13 @@ def run(ctx):
                        judge="geom/VoxelJudge", timeout=3000)
     import c07_prims
     c07_prims.run(ctx)
+    # triangle against triangle on integer corners (unrelated, one corner in common, an edge in common) against exact
+    # orientation determinants
+    st = solids.judge_stage(ctx, "tripairs", ["c07-tripairs", "n=%d" % (800 if quick else 8000)],
+                            {"panic", "tri-hit", "tri-miss", "tri-one"}, judge="geom/TriPairJudge",
+                            keyfn=lambda rec, clause: "%s:%s:common=%d" % (rec["site"], clause, rec["common"]))
+    if st.get("nonempty", 0) < 20:
+        raise Infra("tripairs: only %d pairs were reported as intersecting" % st.get("nonempty", 0))
     # 2-D accelerated colliders (mesh / BVH / grouped / nested) on pixel worlds and integer polygons: exact crossing
     # counts of rays in general position, ColliderContains = even-odd parity, first hit consistent with the count
     import c08_accel2
